@@ -54,6 +54,11 @@ export const PROBES = [
 // that told the two behaviours apart; `expect` is TypeScript's verdict, "diagnostic" a refusal.
 const fn0 = () => 1;
 export const TEXT_PROBES = [
+  { id: "typeof-const-primitive-is-its-literal", text: 'const x = "pre";\nconst n = 5;\ntype X = { a: typeof x; n: typeof n };', cases: [[{ a: "pre", n: 5 }, "Y"], [{ a: "other", n: 5 }, "N"], [{ a: "pre", n: 6 }, "N"]] },
+  { id: "typeof-spread-later-wins", text: 'const defaults = { mode: "light", size: 1 } as const;\nconst overrides = { mode: "dark" } as const;\nconst cfg = { ...defaults, ...overrides } as const;\ntype X = typeof cfg;', cases: [[{ mode: "dark", size: 1 }, "Y"], [{ mode: "light", size: 1 }, "N"], [{ mode: "dark" }, "N"]] },
+  { id: "typeof-spread-after-explicit", text: 'const o = { a: "x", b: 2 } as const;\nconst cfg = { a: 1, ...o } as const;\ntype X = typeof cfg;', cases: [[{ a: "x", b: 2 }, "Y"], [{ a: 1, b: 2 }, "N"]] },
+  { id: "typeof-explicit-after-spread", text: 'const o = { a: "x", b: 2 } as const;\nconst cfg = { ...o, a: 1 } as const;\ntype X = typeof cfg;', cases: [[{ a: 1, b: 2 }, "Y"], [{ a: "x", b: 2 }, "N"]] },
+  { id: "typeof-three-spreads", text: 'const p = { k: 1, l: "p" } as const;\nconst q = { k: 2 } as const;\nconst r = { l: "r", m: true } as const;\nconst cfg = { ...p, ...q, ...r } as const;\ntype X = typeof cfg;', cases: [[{ k: 2, l: "r", m: true }, "Y"], [{ k: 1, l: "r", m: true }, "N"], [{ k: 2, l: "p", m: true }, "N"]] },
   { id: "utility-over-intersection-with-optionality-flip", text: "type A = { b: string; c?: 1 };\ntype W = { b?: string; c?: 1; d?: 2 };\ntype X = Required<Pick<A & W, \"b\" | \"d\">>;", cases: [[{ b: "s", d: 2 }, "Y"], [{ b: "s" }, "N"], [{ d: 2 }, "N"]] },
   { id: "conditional-inside-a-distributing-conditional", text: 'type U = "a" | "b";\ntype Inner<T> = T extends "a" ? 1 : 2;\ntype Outer<T> = T extends string ? Inner<U> : never;\ntype X = Outer<U>;', cases: [[1, "Y"], [2, "Y"], [3, "N"]] },
   { id: "required-takes-undefined-out", text: "type U = string | undefined;\ntype X = Required<{ a?: string | undefined; b?: number | null; c?: U }>;", cases: [[{ a: "s", b: 1, c: "t" }, "Y"], [{ b: 1, c: "t" }, "N"], [{ a: "s", b: null, c: "t" }, "Y"], [{ a: "s", b: 1 }, "N"], [{ a: null, b: 1, c: "t" }, "N"]] },
